@@ -23,7 +23,7 @@ ASSUMPTIONS = ['dialect per level as implemented and pinned by the existing test
 
 def budget(tier):
     if tier == 'thorough':
-        return dict(examples=4000, shards=16, procs=16)
+        return dict(examples=8000, shards=16, procs=16)
     return dict(examples=800, shards=4, procs=4)
 
 
